@@ -171,8 +171,13 @@ def run(ctx):
                         if 'viterbi-weight' not in results:
                             results['viterbi-weight'] = w
                         elif not (w == results['viterbi-weight'] or (w != w and results['viterbi-weight'] != results['viterbi-weight'])):
+                            # +inf log-weights meeting -inf ones give NaN in the kernel's plain addition and NaN wins or loses the argmax
+                            # depending on the order of the candidates: finding D35 (recorded under C04) seen from C12
+                            pn = any(x == math.inf for wv in sh['vweights'].values() for x in wv) and \
+                                any(x == -math.inf for wv in sh['vweights'].values() for x in wv)
                             ctx.fail('weight of the viterbi derivation depends on how the grammar is written down',
-                                     dict(case, presentation=p), w, results['viterbi-weight'], tags=['presentation', 'viterbi-weight'])
+                                     dict(case, presentation=p), w, results['viterbi-weight'],
+                                     tags=['presentation', 'viterbi-weight'] + (['posinf-meets-neginf'] if pn else []))
                         posinf = any(x == math.inf for wv in sh['vweights'].values() for x in wv)
                         if w != z.item() and not posinf:
                             ctx.fail('weight of the viterbi derivation differs from the Viterbi sum_product in this presentation',
